@@ -18,6 +18,7 @@ struct vnode {
   uid_t uid; gid_t gid;
   char data[VFS_CONTENT + 1];
   size_t len;
+  const short *line_ends; int n_lines;
 };
 extern struct vnode vfs[VFS_MAXNODES];
 extern int vfs_n;
@@ -25,6 +26,10 @@ extern int vfs_n;
 int vfs_add(const char *path, int parent, unsigned kind);
 void vfs_set(int node, const char *data, size_t len);
 void vfs_own(int node, uid_t uid, gid_t gid);
+/* CBMC only: concrete positions one past the end of each line (i.e. index after the '\n', or the
+   content length for an unterminated last line).  Sound only if the harness constrains every
+   other byte to be different from '\n'; lets getline return concrete lengths.  Native: no-op. */
+void vfs_set_lines(int node, const short *ends, int n);
 /* native: create everything on disk; CBMC: no-op */
 void vfs_commit(void);
 /* path as handed to the library (native: prefixed with the replay root) */
